@@ -365,6 +365,8 @@ QueuedOrDone(e) == \/ evs[e].st # "pending"
 Valid(o) ==
   CASE o.k = "yield" -> P # 0 /\ Exists(o.a) /\ evs[o.a].kind \in UserKinds /\ o.a # procs[P].pe
     [] o.k \in {"succeed", "fail"} -> Exists(o.a) /\ evs[o.a].kind = "ev"
+    [] o.k = "trigger" -> /\ Exists(o.a) /\ evs[o.a].kind = "ev"
+                          /\ Exists(o.b) /\ evs[o.b].kind \in UserKinds /\ evs[o.b].st # "pending" /\ o.b # o.a
     [] o.k = "interrupt" -> o.a \in 1..Len(procs)
     [] o.k = "cond" -> \A i \in 1..Len(o.s) : Exists(o.s[i]) /\ evs[o.s[i]].kind \in UserKinds   \* the same event may be listed twice
     [] o.k = "runev" -> Exists(o.a) /\ evs[o.a].kind \in UserKinds
@@ -412,7 +414,7 @@ Do(o) ==
                /\ IF NegDelay(o.a)
                   THEN /\ log' = Refused("ValueError") /\ procs' = Bump(procs) /\ UNCHANGED <<agenda, seq, evs, run>>
                   ELSE YieldOn(e, o.c, E1, Bump(procs), agenda \cup {Entry(e, NRM, o.a, seq)}, seq + 1, log)
-       [] o.k = "baddelay" ->                      \* env.timeout(-1): ValueError, nothing created
+       [] o.k = "baddelay" ->                      \* env.timeout(-1) / b = 1: env.schedule(event, delay=-1): ValueError, nothing created
             /\ log' = Refused("ValueError") /\ procs' = Bump(procs)
             /\ UNCHANGED <<agenda, seq, evs, run>>
        [] o.k = "event" ->
@@ -426,6 +428,13 @@ Do(o) ==
                                           ![o.a].val = Val(IF o.k = "succeed" THEN "v" ELSE "x", o.a, <<>>)]
                     /\ agenda' = agenda \cup {Entry(o.a, NRM, 0, seq)} /\ seq' = seq + 1 /\ log' = log
                ELSE /\ log' = Refused("RuntimeError") /\ UNCHANGED <<evs, agenda, seq>>
+            /\ procs' = Bump(procs) /\ UNCHANGED run
+       [] o.k = "trigger" ->                       \* Event.trigger: event a takes over the outcome of the triggered event b
+            /\ IF evs[o.a].st = "pending"
+               THEN /\ evs' = [evs EXCEPT ![o.a].st = "triggered", ![o.a].ok = evs[o.b].ok, ![o.a].val = evs[o.b].val]
+                    /\ agenda' = agenda \cup {Entry(o.a, NRM, 0, seq)} /\ seq' = seq + 1 /\ log' = log
+               ELSE \* an event can be triggered only once -- by whichever of succeed / fail / trigger
+                    /\ log' = Refused("RuntimeError") /\ UNCHANGED <<evs, agenda, seq>>
             /\ procs' = Bump(procs) /\ UNCHANGED run
        [] o.k = "spawn" ->
             LET q == Len(procs) + 1  pe == Len(evs) + 1  ie == Len(evs) + 2 IN
